@@ -668,11 +668,11 @@ class Facts:
         root = npath
         while '::{closure#' in root:
             root = root[:root.rindex('::{closure#')]
-        if root in self.baseline:
-            return False
         import inliner
         if getattr(self, '_renamed', None) is None:
             self._renamed = inliner.renamed_helpers(self, norm)
+        if root in self.baseline:
+            return root in getattr(self, '_resigned', ())
         return root not in self._renamed
 
     def seen_inlined(self, npath):
